@@ -2,4 +2,4 @@ From LV Require Import Base.Buf Opt.OptModel.
 Require Extraction.
 Require Import ExtrOcamlBasic.
 Extraction "c08_model.ml" num_anchor parse parse_twice init_st mkenv mkopt mkstore parse_fuel
-  num_words get_word strtol0 to_int.
+  num_words get_word strtol0 to_int render ideal sps_ok names_ok.
